@@ -2,6 +2,7 @@ pub mod common;
 pub mod modelchk;
 pub mod c01;
 pub mod c02;
+pub mod c03;
 pub mod c04;
 pub mod c09;
 pub mod c10;
@@ -14,6 +15,7 @@ pub fn plan_for(id: &str) -> Option<Plan> {
     Some(match id {
         "C01" => c01::plan(),
         "C02" => c02::plan(),
+        "C03" => c03::plan(),
         "C04" => c04::plan(),
         "C09" => c09::plan(),
         "C10" => c10::plan(),
@@ -26,6 +28,7 @@ pub fn shard_for(id: &str, ctx: &Ctx) -> Option<Shard> {
     Some(match id {
         "C01" => c01::shard(ctx),
         "C02" => c02::shard(ctx),
+        "C03" => c03::shard(ctx),
         "C04" => c04::shard(ctx),
         "C09" => c09::shard(ctx),
         "C10" => c10::shard(ctx),
